@@ -426,7 +426,9 @@ def check_file(ctx, path, banks_words, pos, expect_lines, case, enc='utf-8'):
 
 def run_cli(ctx, rng, i):
     """Real command line: export file -> negra_mark_heads binarize -> system"""
-    pools = gen.Pools(edges=['HD', 'NK', 'SB', '--'])
+    pools = gen.Pools(edges=['HD', 'NK', 'SB', '--'],
+                      pos=gen.POS + (['P+D', 'DET+NOUN', 'A+', '+']
+                                     if rng.random() < 0.4 else []))
     system = rng.choice(['topdown', 'inorder', 'gap'])
     bank = []
     for j in range(rng.randint(1, 4)):
@@ -656,7 +658,9 @@ def run_writer(ctx, rng, pools, long=False):
     system = rng.choice(['topdown', 'inorder'])
     # long: more sentences than any block the writer may work in (> 2000)
     specs = [binary_tree(rng, gen.Pools(words=gen.WORDS_ASCII
-                                        + gen.WORDS_NONASCII),
+                                        + gen.WORDS_NONASCII,
+                                        pos=gen.POS + ['P+D', 'DET+NOUN',
+                                                       'A+', '$,']),
                          rng.randint(1, 2 if long else 8), 0, 0.2,
                          rng.random() < 0.3)
              for _ in range(rng.randint(2001, 2300) if long
